@@ -221,6 +221,12 @@ def run(chk):
         chk.check(fh.canon("heartbeat_time_ms > 0") in g or fh.canon("heartbeat_time_ms >= 1") in g, "R4", f"{NMT}:NmtSlave.start_heartbeat | only for positive time",
                   sh.loc(c), f"task started under {g}")
 
+    # "after the heartbeat time is set to 0 none is running": start_heartbeat stops the running task on every path, also when
+    # the new time is 0 and nothing is started
+    wit = must_pass(fh.cfg, lambda n: node_calls(n, "self.stop_heartbeat") or node_calls(n, "self._send_task.stop"))
+    chk.check(wit is None, "R4", f"{NMT}:NmtSlave.start_heartbeat | the running task is stopped whatever the new time", sh.loc(),
+              f"a path leaves start_heartbeat without stopping the running task: {path_text(wit) if wit else ''}")
+
     # ------------------------------------------------------------------ R5 disconnect
     dc = repo.func(NET, "Network.disconnect", "C17.R5")
     fd = ff_for(chk, dc, "C17.R5")
@@ -233,6 +239,11 @@ def run(chk):
                 ok = all(p and x == f"hasattr({src(lp.target)}, 'pdo')" for x, p in g)
         inner = [n for n in ast.walk(lp) if isinstance(n, (ast.Break, ast.Return))]
         ok = ok and not inner
+        # an exception handler around the whole loop ends the loop at the first node that raises: the nodes after it keep their tasks
+        around = [t for t in own_nodes(dc.node) if isinstance(t, ast.Try) and t.handlers and any(x is lp for b in t.body for x in ast.walk(b))]
+        chk.check(not around, "R5", f"{NET}:Network.disconnect | one failing node does not end the loop", dc.loc(lp),
+                  f"the loop over the nodes sits inside `try ... except {src(around[0].handlers[0].type) if around and around[0].handlers[0].type is not None else ''}`: "
+                  "the first node that raises ends it and the PDO tasks of the remaining nodes keep running" if around else "")
     chk.check(ok, "R5", f"{NET}:Network.disconnect | stops PDO tasks of every node", dc.loc(), "disconnect() does not call node.pdo.stop() for every node")
     if loops:
         wit = must_pass(fd.cfg, lambda n: n.kind == "for" and n.ast is loops[0])
